@@ -391,7 +391,13 @@ func resolveAnchors(p *Prog) (*Anchors, error) {
 			if !ok || len(r.Results) != 2 {
 				return true
 			}
-			if !mentionsObj(info, r.Results[1], a.ErrInvalid) {
+			// the outcome constant that accompanies an error: a return whose
+			// error operand is not the nil literal (it mentions the sentinel
+			// directly or goes through an error-constructor helper)
+			if eid, ok := r.Results[1].(*ast.Ident); ok && eid.Name == "nil" {
+				return true
+			}
+			if _, isCall := r.Results[1].(*ast.CallExpr); !isCall && !mentionsObj(info, r.Results[1], a.ErrInvalid) {
 				return true
 			}
 			if id, ok := r.Results[0].(*ast.Ident); ok {
